@@ -171,7 +171,7 @@ def collect_imports(stmts: list[ast.stmt], modname: str, is_pkg: bool = False) -
 class Repo:
     """All modules of the flowmark package in the current working tree."""
 
-    def __init__(self, root: Path | None = None) -> None:
+    def __init__(self, root: Path | None = None, trees: dict | None = None) -> None:
         self.root = root or repo_root()
         self.pkg_dir = self.root / "src" / "flowmark"
         if not self.pkg_dir.is_dir():
@@ -181,7 +181,18 @@ class Repo:
         self.classes: dict[str, ClassInfo] = {}
         self.func_of_node: dict[ast.AST, FuncInfo] = {}
         self.class_of_node: dict[ast.AST, ClassInfo] = {}
-        self._load()
+        self.is_inlined_view = trees is not None
+        if trees is not None:
+            # a view built from already parsed (and transformed) module trees
+            for name, (path, source, tree) in trees.items():
+                set_parents(tree)
+                mod = Module(name=name, path=path, source=source, tree=tree)
+                mod.imports = collect_imports(tree.body, name, path.name == "__init__.py")
+                self.modules[name] = mod
+            for mod in self.modules.values():
+                self._index_module(mod)
+        else:
+            self._load()
 
     # ------------------------------------------------------------------ loading
     def _load(self) -> None:
